@@ -53,7 +53,9 @@ func (c *Ctx) Bad(rule, key, site, detail string) { c.add(rule, key, site, "viol
 
 // Stuck records an obligation the checker could not decide (unresolved
 // anchor, unsupported shape). It fails the run without a VIOLATION line.
-func (c *Ctx) Stuck(rule, key, site, detail string) { c.add(rule, key, site, "undecided", detail, false) }
+func (c *Ctx) Stuck(rule, key, site, detail string) {
+	c.add(rule, key, site, "undecided", detail, false)
+}
 
 // Check is OK/Bad by condition.
 func (c *Ctx) Check(cond bool, rule, key, site, okDetail, badDetail string) bool {
@@ -65,7 +67,9 @@ func (c *Ctx) Check(cond bool, rule, key, site, okDetail, badDetail string) bool
 	return cond
 }
 
-func (c *Ctx) Note(format string, a ...interface{}) { c.Notes = append(c.Notes, fmt.Sprintf(format, a...)) }
+func (c *Ctx) Note(format string, a ...interface{}) {
+	c.Notes = append(c.Notes, fmt.Sprintf(format, a...))
+}
 
 func (c *Ctx) Assumption(s string) { c.Assume = append(c.Assume, s) }
 
